@@ -55,6 +55,8 @@ impl PrefetchSupport {
         let block_id = i >> self.sample_rate_shift;
         let sample_rate = 1 << self.sample_rate_shift;
 
+        #[cfg(qwt_verif)]
+        crate::verif::idx("pfs.sample", symbol as usize, self.samples.len());
         self.samples
             .get_unchecked(symbol as usize)
             .rank1(block_id + 1)
